@@ -176,6 +176,12 @@ def c04_jobs(tier):
                         if q and (body + s + role + hm + l1) % 4 != 0 and body > 20:
                             continue
                         jobs.append(job(ROOT, "HDecodeDecryptArbitrary", [s, role, 1, hm, 28 + l1 + 4 + body, 2, l1], solver="z3-new", cut=cut_dd))
+    # genuine peer messages whose encrypted chain holds unsupported payloads (the code behind the inner
+    # decoding loop is not reached by the cut jobs above)
+    for i, s_ in enumerate((2, 7) if q else range(9)):
+        for base in ([], [40]):
+            jobs.append(job(ROOT, "HSkipInsideProtected", [s_, i % 2, (i + len(base)) % 2, 0] + base + [0]))
+            jobs.append(job(ROOT, "HSkipInsideProtected", [s_, (i + 1) % 2, i % 2, 1] + base + [0]))
     for hm in (0, 1):
         for n in range(0, 28 + 8 + 1):
             jobs.append(job(ROOT, "HDecodeDecryptArbitrary", [0, 0, 0, hm, n, 0], **A))
@@ -224,6 +230,11 @@ def c13_jobs(tier):
             if mode == 2 and not base:
                 continue
             jobs.append(job(MSG, "HSkipUnsupported", [-1, mode, L] + base + [0]))
+    # inside the encrypted chain of a peer's message
+    for i, s_ in enumerate((0, 4, 8) if q else range(9)):
+        for base in ([], [40], [41, 43]):
+            jobs.append(job(ROOT, "HSkipInsideProtected", [s_, i % 2, (i + len(base)) % 2, 0] + base + [0]))
+        jobs.append(job(ROOT, "HSkipInsideProtected", [s_, (i + 1) % 2, i % 2, 1, 40, 0]))
     # long messages: 1024-octet insertions into a message that already carries 1000 / 3000 data octets
     for big in ((2000,) if q else (2000, 4000)):
         for mode in (0, 1):
@@ -265,6 +276,9 @@ def c20_jobs(tier):
     # several hundred octets per value (allocation strategies that change with the size)
     for k in (47, 37, 41, 43):
         jobs.append(job(MSG, "HDecodeOwnsData", [1300, k, 0], wall_ms=600000))
+    for i, k in enumerate(PAYLOAD_KINDS):
+        for entry in ((1 + i % 3,) if q else (1, 2, 3)):
+            jobs.append(job(MSG, "HDecodeOwnsDataEntryPoints", [entry, 0, k, 0]))
     jobs.append(job(MSG, "HEncodePure", [1600, 40, 37, 0], wall_ms=600000))
     for meth, mask in ((1, 0), (2, 0), (3, 0), (254, 0), (50, 0), (50, 1 | 4 | 32)):
         jobs.append(job(EAP, "HEapEncodePureAnyCode", [meth, mask]))
@@ -319,6 +333,10 @@ def c06_jobs(tier):
             for sh in shapes:
                 jobs.append(job(ROOT, "HSKLayout", [s, role, 0] + sh + [0]))
                 jobs.append(job(ROOT, "HAcceptReference", [s, role, (s + role) % 2, 0] + sh + [0]))
+    # a peer may put payloads this library does not implement into the encrypted chain
+    for i, s_ in enumerate((3, 6) if q else range(9)):
+        for base in ([], [41]):
+            jobs.append(job(ROOT, "HSkipInsideProtected", [s_, i % 2, (i + len(base)) % 2, 0] + base + [0]))
     # inner chains of several hundred octets (two payloads with 300 / 1000 data octets each)
     for i, s in enumerate((1, 5, 6) if q else range(9)):
         big = 1300 if i % 2 == 0 or q else 2000
@@ -401,6 +419,7 @@ def c08_jobs(tier):
                 jobs.append(job(SEC, "HChildKeys", [p, e, i, 16, 1000 + (3 if (p + e + i) % 2 else 0)]))
         for i in range(4):
             jobs.append(job(SEC, "HChildKeys", [p, (p + i) % 3, i, 16, 2000 + (5 if i % 2 else 0)]))
+            jobs.append(job(SEC, "HChildKeys", [p, (p + i + 1) % 3, i, 16, 3000 + (3 if i % 2 else 0)]))
     return jobs
 
 
@@ -595,6 +614,8 @@ def c09_jobs(tier):
         jobs.append(job(SEC, "HNewIKESAKeyFault", [g]))
     for k in (0, 1, 2, 3):
         jobs.append(job(SEC, "HRandomNumber", [k], unwind_assume=UA_RAND))
+    # a single call with up to eleven rejected draws in a row (a bounded retry loop must not fall through)
+    jobs.append(job(SEC, "HRandomNumber", [4], unwind_assume=UA_RAND, unwind_assume_n=12, wall_ms=600000))
     return jobs
 
 
@@ -674,7 +695,7 @@ PROPS = {
                 assumptions=["net.ParseIP is evaluated concretely by the engine (real standard-library function on the constant strings)"]),
 
     "C09": dict(jobs=c09_jobs, claim="Ground queries: the parsed modulus of both groups equals the RFC prime computed (not copied) from its defining formula with 900-digit pi, generator 2, modulus length 128 / 256. With big.Int.Exp uninterpreted (modexp < m for m > 0; modexp(modexp(g,a),b) = modexp(modexp(g,b),a)): for every exponent x < 2^2048 and peer value y < 2^2056, GetPublicValue / GetSharedKey return exactly the modulus-length big-endian image of 2^x / y^x mod p - the executor forks over every possible minimal length of the result, so leading zero octets are covered for every value; both parties' shared secrets agree; GetPublicValue / GetSharedKey leave their big.Int operands unchanged; a generated exponent consists of the last 2048 bits the random source delivered during that call (however many reads, rejected draws included), lies in [2^128, 2^2048), a second call returns a later draw, and a failing source at either call (and inside NewIKESAKey) gives an error and no key.",
-                bounds=lambda t: "group 2: all 129 minimal lengths of the result; group 14: %s; agreement under the assumption of full-length public and shared values; exponent rejection loop unwound twice (unwinding assumption: termination is probabilistic)" % ("minimal lengths {256,255,254,128,1,0}" if t == "quick" else "all 257 minimal lengths"),
+                bounds=lambda t: "group 2: all 129 minimal lengths of the result; group 14: %s; agreement under the assumption of full-length public and shared values; exponent rejection loop followed through three rejected draws (eleven in one job), then cut by the unwinding assumption: termination is probabilistic" % ("minimal lengths {256,255,254,128,1,0}" if t == "quick" else "all 257 minimal lengths"),
                 outside="that math/big.Exp computes modular exponentiation and that two draws of the system source differ (trusted contracts of the standard library)",
                 assumptions=["math/big.Int.Exp is an uninterpreted function with modexp(b,e,m) < m and commutation in the exponents; SetString/SetBytes/Bytes/Cmp are modelled on 2176-bit vectors", "crypto/rand.Int returns a fresh symbolic value below its bound, or fails at the injected call", "a direct Read on crypto/rand.Reader fills the buffer, fails at the injected call, or - only the first such call on a path - delivers 1 or n-1 octets without error (io.Reader's contract); crypto/rand.Read and io.ReadFull always fill", "big.Int.BitLen is evaluated on constants only"]),
 
